@@ -766,3 +766,16 @@ V("C08-is-string-dtype", "C08", ["C08.R1"], [(PANDAS, "            return values
 V("C08-droprows-to-numpy", "C08", ["C08.R4"], [(NULLS, "    return values.iloc[numpy.delete(numpy.arange(values.shape[0]), indices)]", "    return pandas.Series(numpy.delete(values.to_numpy(), indices), index=values.index.delete(indices), name=values.name)")], "seed C08-s2")
 V("C10-stateful-eval-aliases-dropped", "C10", ["C10.R3"], [(STATEFUL, "        variables.update(get_expression_variables(code, env, aliases))", "        variables.update(get_expression_variables(code, env))")], "seed C10-s3")
 V("C05-droprows-overrides", "C05", ["C05.R3"], [(SPEC, "            return self.update(**attr_overrides).get_model_matrix(\n                data, context=context, drop_rows=drop_rows\n            )", "            return self.update(**attr_overrides).get_model_matrix(\n                data, context=context\n            )")], "seed C05-s3")
+V("C07-revert-cache-hit-state", "C07", ["C07.R9"], [(BASE, """            if (
+                factor.expr not in spec.encoder_state
+                and factor.expr in self.encoder_state_cache
+            ):
+                # The encoding was served from the cache (generated for another
+                # part of a structured formula); this spec must record the
+                # encoder state too, or it cannot regenerate its own part.
+                spec.encoder_state[factor.expr] = self.encoder_state_cache[factor.expr]
+""", "")], "origin: revert 394022c")
+V("C09-revert-cache-hit-state", "C09", ["C09.R1"], [(BASE, """                spec.encoder_state[factor.expr] = self.encoder_state_cache[factor.expr]
+""", """                pass
+""")], "origin: revert 394022c")
+V("C20-revert-structure-reset", "C20", ["C20.R1"], [(SPEC, "            structure=None,\n        )\n\n    # Only include dataclass fields when pickling.", "        )\n\n    # Only include dataclass fields when pickling.")], "origin: revert 0cce34b")
